@@ -191,6 +191,9 @@ func checkC12(c *Ctx, r *Report) {
 			r.add(it)
 		}
 	}
+	// R12.4: CRC-guardedness of the recogniser is about its argument: the clients must hand it
+	// exactly the bytes received so far, not a prefix or a single chunk
+	clientLoopItems(c, r, "R7.3", "R12.4", "the recogniser sees received[0:total]")
 	r.assumption("CRC16 is uninterpreted; a reply whose trailer differs from CRC16 of its body fails the equality on every path")
 	r.assumption("functions supplied by the user through ClientConfig are outside the property")
 }
